@@ -147,12 +147,23 @@ func detectOutputDir(paths []string) (string, error) {
 	return dir, nil
 }
 
+// filesByName returns the syntax trees of pkg ordered by file name. That is
+// the order the go tool lists the files of a directory in; a package named by
+// a list of files has them in command-line order instead.
+func filesByName(pkg *packages.Package) []*ast.File {
+	files := append([]*ast.File(nil), pkg.Syntax...)
+	sort.SliceStable(files, func(i, j int) bool {
+		return pkg.Fset.File(files[i].Pos()).Name() < pkg.Fset.File(files[j].Pos()).Name()
+	})
+	return files
+}
+
 // generateInjectors generates the injectors for a given package.
 func generateInjectors(g *gen, pkg *packages.Package) (injectorFiles []*ast.File, _ []error) {
 	oc := newObjectCache([]*packages.Package{pkg})
 	injectorFiles = make([]*ast.File, 0, len(pkg.Syntax))
 	ec := new(errorCollector)
-	for _, f := range pkg.Syntax {
+	for _, f := range filesByName(pkg) {
 		for _, decl := range f.Decls {
 			fn, ok := decl.(*ast.FuncDecl)
 			if !ok {
